@@ -335,6 +335,22 @@ fn open_positions(w: &World) -> Vec<String> {
 
 fn random_limit(w: &mut World, sc: &Scenario, pool: &str, a_to_b: bool) -> u128 {
     let sp = w.pool_sqrt_price(pool);
+    if w.rng.gen_bool(0.06) {
+        // a limit that is NOT on the trade side of the price (the swap must be refused): the price itself, one unit off,
+        // a point between the price and the edge of the current tick, the edge itself, or far away
+        let t = w.pool_tick(pool);
+        let (edge_lo, edge_hi) = (price_of(t.max(MIN_TICK)), price_of((t + 1).min(MAX_TICK)));
+        let between = |w: &mut World, a: u128, b: u128| if b > a + 1 { a + 1 + w.rng.gen::<u128>() % (b - a - 1) } else { a };
+        let cand = if a_to_b {
+            [sp, sp + 1, between(w, sp, edge_hi), edge_hi, price_of((t + 50).min(MAX_TICK))]
+        } else {
+            [sp, sp.saturating_sub(1), between(w, edge_lo, sp), edge_lo + 1, price_of((t - 50).max(MIN_TICK))]
+        };
+        let c = cand[w.rng.gen_range(0..cand.len())];
+        if c >= MIN_SQRT_PRICE && c <= MAX_SQRT_PRICE && ((a_to_b && c >= sp) || (!a_to_b && c <= sp)) {
+            return c;
+        }
+    }
     if w.rng.gen_bool(0.2) && !sc.bounds.is_empty() {
         // exactly the price of a tick that bounds positions (the swap then stops exactly on that tick)
         let t = pick(w, &sc.bounds);
